@@ -12,7 +12,7 @@ import (
 func init() {
 	register(&Prop{
 		ID:          "C01",
-		Explanation: "Decides the control-flow skeleton of 'served only if credential or bypass': every protected sink (load of the upstream handler, the 202 writer of the auth-only endpoint, every success write of the user-info endpoint) is reached only on paths where getAuthenticatedSession returned a nil error; every nil-error return of getAuthenticatedSession has the bypass predicate true or (session non-nil, e-mail empty or validated, Authorize true); IsAllowedRequest is true only through preflight&&OPTIONS, isAllowedRoute or isTrustedIP and is called only from getAuthenticatedSession; RequestScope.Session is written only by the three session loaders and only with result #0 of their verified getter; each getter returns non-nil only after its verification call succeeded; cookie-store Load and ticket decoding succeed only behind encryption.Validate ok, which needs checkSignature true, which needs hmac.Equal; the route table wraps every session-consuming handler in sessionChain. Added during the build: the skip-auth decision consumes only the guarded, query-free request path (R9, shared with C15.R1); the trusted-IP set inserts into the same-mask map it looks up and the htpasswd validator answers true only by comparing against the entry it read (R10, shared with C15.R5 / C20.R2). Round 3: issuer verification of bearer-token verifiers is switched off only by the operator's option (R11); without a header parser the client address is net.ParseIP(SplitHostPort(req.RemoteAddr)#0) and nothing else (R12).",
+		Explanation: "Decides the control-flow skeleton of 'served only if credential or bypass': every protected sink (load of the upstream handler, the 202 writer of the auth-only endpoint, every success write of the user-info endpoint) is reached only on paths where getAuthenticatedSession returned a nil error; every nil-error return of getAuthenticatedSession has the bypass predicate true or (session non-nil, e-mail empty or validated, Authorize true); IsAllowedRequest is true only through preflight&&OPTIONS, isAllowedRoute or isTrustedIP and is called only from getAuthenticatedSession; RequestScope.Session is written only by the three session loaders and only with result #0 of their verified getter; each getter returns non-nil only after its verification call succeeded; cookie-store Load and ticket decoding succeed only behind encryption.Validate ok, which needs checkSignature true, which needs hmac.Equal; the route table wraps every session-consuming handler in sessionChain. Added during the build: the skip-auth decision consumes only the guarded, query-free request path (R9, shared with C15.R1); the trusted-IP set inserts into the same-mask map it looks up and the htpasswd validator answers true only by comparing against the entry it read (R10, shared with C15.R5 / C20.R2). Round 3: issuer verification of bearer-token verifiers is switched off only by the operator's option (R11); without a header parser the client address is net.ParseIP(SplitHostPort(req.RemoteAddr)#0) and nothing else (R12). Round 4: a bearer token verifies only with go-oidc's verdict and the audience membership check on the first configured audience claim present (R13, shared with C04.R1); a Basic credential is split at its first colon only (R14).",
 		NotDecided:  "that a valid credential always verifies (values), correctness of HMAC/AES (trusted), string semantics of validators.",
 		Run:         runC01,
 	})
@@ -194,13 +194,13 @@ func runC01(c *Ctx) {
 	})
 
 	// ---- R3: nil-error returns of getAuthenticatedSession ---------------------------------------
-	isAllowed := c.Fn("R3-authenticated-returns", "(*main.OAuthProxy).IsAllowedRequest")
+	isAllowed := c.bypassEntry("R3-authenticated-returns")
 	validatorF := c.Field("R3-authenticated-returns", "main.OAuthProxy.Validator")
 	emailF := c.Field("R3-authenticated-returns", "pkg/apis/sessions.SessionState.Email")
 	scopeSessF := c.Field("R3-authenticated-returns", "pkg/apis/middleware.RequestScope.Session")
 	authorizeM := c.Method("R3-authenticated-returns", "providers.Provider.Authorize")
 	getScope := c.Fn("R3-authenticated-returns", "pkg/apis/middleware.GetRequestScope")
-	if isAllowed != nil && validatorF != nil && emailF != nil && authorizeM != nil && scopeSessF != nil && getScope != nil {
+	if validatorF != nil && emailF != nil && authorizeM != nil && scopeSessF != nil && getScope != nil {
 		c.Walk("R3-authenticated-returns", gas, func(p *walk.Path) {
 			checkAuthenticatedReturn(c, "R3-authenticated-returns", p, isAllowed, validatorF, emailF, scopeSessF, authorizeM, getScope)
 		})
@@ -269,8 +269,15 @@ func checkAuthenticatedReturn(c *Ctx, rule string, p *walk.Path, isAllowed *ssa.
 		return
 	}
 	// (A) bypass
-	if _, ok := Has(p, at, Need{M: walk.Static(isAllowed), Idx: -1, Out: IsTrue}); ok {
-		c.ok(rule, key+"|bypass", ret, "IsAllowedRequest(req)==true")
+	if isAllowed != nil {
+		if _, ok := Has(p, at, Need{M: walk.Static(isAllowed), Idx: -1, Out: IsTrue}); ok {
+			c.ok(rule, key+"|bypass", ret, "IsAllowedRequest(req)==true")
+			return
+		}
+	} else if how, ok := c.bypassFact(rule, p, at); ok {
+		// IsAllowedRequest does not exist as a function (inlined into its caller): the three configured bypasses are
+		// recognised directly on this path
+		c.ok(rule, key+"|bypass", ret, how)
 		return
 	}
 	// (B) authenticated and authorised
@@ -296,6 +303,13 @@ func checkAuthenticatedReturn(c *Ctx, rule string, p *walk.Path, isAllowed *ssa.
 
 func runC01R4(c *Ctx, rule string, isAllowed, gas *ssa.Function) {
 	if isAllowed == nil {
+		// no separate bypass entry point: R3/(A) accepts a session-less nil-error return only with one of the three
+		// configured bypass facts on the path, which is this rule's condition decided in place
+		if c.P.Func("(*main.OAuthProxy).isAllowedRoute") != nil && c.P.Func("(*main.OAuthProxy).isTrustedIP") != nil {
+			c.R.OK(rule, "true-via|inlined", c.P.Pos(gas.Pos()), "the bypass decision lives in getAuthenticatedSession; its accepting paths are judged by the authenticated-returns rule")
+			c.R.OK(rule, "caller|"+fnKey(gas), c.P.Pos(gas.Pos()), "the one place")
+			c.R.OK(rule, "returns|inlined", c.P.Pos(gas.Pos()), "see authenticated-returns")
+		}
 		return
 	}
 	route := c.Fn(rule, "(*main.OAuthProxy).isAllowedRoute")
@@ -352,4 +366,35 @@ func runC01R4(c *Ctx, rule string, isAllowed, gas *ssa.Function) {
 	for _, u := range c.funcValueUses(isAllowed) {
 		c.bad(rule, "value-use|"+fnKey(u.Parent()), u, "IsAllowedRequest escapes as a function value", nil, 0)
 	}
+}
+
+// bypassEntry resolves IsAllowedRequest when it exists as a function (then it is an anchor, analysed on its own by R4);
+// nil when a refactoring has folded it into getAuthenticatedSession.
+func (c *Ctx) bypassEntry(rule string) *ssa.Function {
+	if c.P.Func("(*main.OAuthProxy).IsAllowedRequest") == nil {
+		return nil
+	}
+	return c.Fn(rule, "(*main.OAuthProxy).IsAllowedRequest")
+}
+
+// bypassFact: one of the three configured bypasses holds on the path (preflight flag and OPTIONS, a matching
+// skip-auth route, a trusted client address).
+func (c *Ctx) bypassFact(rule string, p *walk.Path, at int) (string, bool) {
+	route := c.Fn(rule, "(*main.OAuthProxy).isAllowedRoute")
+	trusted := c.Fn(rule, "(*main.OAuthProxy).isTrustedIP")
+	preflightF := c.Field(rule, "main.OAuthProxy.skipAuthPreflight")
+	methodF := c.P.Field("net/http.Request.Method")
+	if route == nil || trusted == nil || preflightF == nil || methodF == nil {
+		return "", false
+	}
+	if _, ok := Has(p, at, Need{M: walk.Static(route), Idx: -1, Out: IsTrue}); ok {
+		return "isAllowedRoute(req)==true", true
+	}
+	if _, ok := Has(p, at, Need{M: walk.Static(trusted), Idx: -1, Out: IsTrue}); ok {
+		return "isTrustedIP(req)==true", true
+	}
+	if fieldBoolAtom(p, at, preflightF, true) && eqConstAtom(p, at, true, "OPTIONS", func(x walk.DV) bool { return walk.IsFieldLoad(p.Resolve(x).V, methodF) }) {
+		return "skipAuthPreflight && req.Method==\"OPTIONS\"", true
+	}
+	return "", false
 }
